@@ -23,6 +23,7 @@ ViewClauses(T, v, tag) ==
      <<"pixelsColumns:" \o tag, \A c \in ColNames : v.p[c] = T.p[c]>>,
      <<"chromNames:" \o tag, v.nv = (IF tag = "live" THEN T.lnv ELSE T.nv)>>,
      <<"balancedReadIffColumn:" \o tag, \A c \in ColNames : v.readable[c] = BalancedReadPossible(T, c)>>,
+     <<"namesResolveByPosition:" \o tag, v.extents = << <<0, 4>>, <<4, 7>>, <<7, 9>> >> >>,
      <<"dataUntouched:" \o tag, v.px_ok>> >>
 
 RECURSIVE Hist(_, _, _, _)
